@@ -203,7 +203,10 @@ func Build(st Stage, i int, e *Env) (Op, error) {
 	case "MapI":
 		return ro.MapI(func(v any, n int64) any { e.enter(i); return fMap(v, n, true) }), nil
 	case "MapWithContext":
-		return ro.MapWithContext(func(ctx context.Context, v any) (context.Context, any) { e.enter(i); return withCb(ctx), fMap(v, 0, false) }), nil
+		return ro.MapWithContext(func(ctx context.Context, v any) (context.Context, any) {
+			e.enter(i)
+			return withCb(ctx), fMap(v, 0, false)
+		}), nil
 	case "MapIWithContext":
 		return ro.MapIWithContext(func(ctx context.Context, v any, n int64) (context.Context, any) {
 			e.enter(i)
@@ -275,7 +278,10 @@ func Build(st Stage, i int, e *Env) (Op, error) {
 	case "FilterI":
 		return ro.FilterI(func(v any, n int64) bool { e.enter(i); return fPred(v, n, true) }), nil
 	case "FilterWithContext":
-		return ro.FilterWithContext(func(ctx context.Context, v any) (context.Context, bool) { e.enter(i); return withCb(ctx), fPred(v, 0, false) }), nil
+		return ro.FilterWithContext(func(ctx context.Context, v any) (context.Context, bool) {
+			e.enter(i)
+			return withCb(ctx), fPred(v, 0, false)
+		}), nil
 	case "FilterIWithContext":
 		return ro.FilterIWithContext(func(ctx context.Context, v any, n int64) (context.Context, bool) {
 			e.enter(i)
@@ -296,7 +302,10 @@ func Build(st Stage, i int, e *Env) (Op, error) {
 	case "SkipWhileI":
 		return ro.SkipWhileI(func(v any, n int64) bool { e.enter(i); return fPred(v, n, true) }), nil
 	case "SkipWhileWithContext":
-		return ro.SkipWhileWithContext(func(ctx context.Context, v any) (context.Context, bool) { e.enter(i); return withCb(ctx), fPred(v, 0, false) }), nil
+		return ro.SkipWhileWithContext(func(ctx context.Context, v any) (context.Context, bool) {
+			e.enter(i)
+			return withCb(ctx), fPred(v, 0, false)
+		}), nil
 	case "SkipWhileIWithContext":
 		return ro.SkipWhileIWithContext(func(ctx context.Context, v any, n int64) (context.Context, bool) {
 			e.enter(i)
@@ -311,7 +320,10 @@ func Build(st Stage, i int, e *Env) (Op, error) {
 	case "TakeWhileI":
 		return ro.TakeWhileI(func(v any, n int64) bool { e.enter(i); return fPred(v, n, true) }), nil
 	case "TakeWhileWithContext":
-		return ro.TakeWhileWithContext(func(ctx context.Context, v any) (context.Context, bool) { e.enter(i); return withCb(ctx), fPred(v, 0, false) }), nil
+		return ro.TakeWhileWithContext(func(ctx context.Context, v any) (context.Context, bool) {
+			e.enter(i)
+			return withCb(ctx), fPred(v, 0, false)
+		}), nil
 	case "TakeWhileIWithContext":
 		return ro.TakeWhileIWithContext(func(ctx context.Context, v any, n int64) (context.Context, bool) {
 			e.enter(i)
@@ -328,7 +340,10 @@ func Build(st Stage, i int, e *Env) (Op, error) {
 	case "FirstI":
 		return ro.FirstI(func(v any, n int64) bool { e.enter(i); return fPred(v, n, true) }), nil
 	case "FirstWithContext":
-		return ro.FirstWithContext(func(ctx context.Context, v any) (context.Context, bool) { e.enter(i); return withCb(ctx), fPred(v, 0, false) }), nil
+		return ro.FirstWithContext(func(ctx context.Context, v any) (context.Context, bool) {
+			e.enter(i)
+			return withCb(ctx), fPred(v, 0, false)
+		}), nil
 	case "FirstIWithContext":
 		return ro.FirstIWithContext(func(ctx context.Context, v any, n int64) (context.Context, bool) {
 			e.enter(i)
@@ -339,7 +354,10 @@ func Build(st Stage, i int, e *Env) (Op, error) {
 	case "LastI":
 		return ro.LastI(func(v any, n int64) bool { e.enter(i); return fPred(v, n, true) }), nil
 	case "LastWithContext":
-		return ro.LastWithContext(func(ctx context.Context, v any) (context.Context, bool) { e.enter(i); return withCb(ctx), fPred(v, 0, false) }), nil
+		return ro.LastWithContext(func(ctx context.Context, v any) (context.Context, bool) {
+			e.enter(i)
+			return withCb(ctx), fPred(v, 0, false)
+		}), nil
 	case "LastIWithContext":
 		return ro.LastIWithContext(func(ctx context.Context, v any, n int64) (context.Context, bool) {
 			e.enter(i)
@@ -493,7 +511,10 @@ func Build(st Stage, i int, e *Env) (Op, error) {
 	case "ContextMap":
 		return ro.ContextMap[any](func(ctx context.Context) context.Context { e.enter(i); return context.WithValue(ctx, rec.KeyMid, true) }), nil
 	case "ContextMapI":
-		return ro.ContextMapI[any](func(ctx context.Context, n int64) context.Context { e.enter(i); return context.WithValue(ctx, rec.KeyMid, true) }), nil
+		return ro.ContextMapI[any](func(ctx context.Context, n int64) context.Context {
+			e.enter(i)
+			return context.WithValue(ctx, rec.KeyMid, true)
+		}), nil
 	case "ContextWithTimeout":
 		return ro.ContextWithTimeout[any](3600 * 1e9), nil
 	}
